@@ -138,7 +138,12 @@ func rsRun(w *bufio.Writer, window int64, ops []rsOp) (term string, nontrivial b
 		return now
 	}
 	out := func(op string, err, n, hash, code int64, remote bool, fired []int64) {
-		items = append(items, u.Pair(op, u.App("ROut", u.Z(err), u.Z(n), u.Z(hash), u.Z(code), u.B(remote), u.ZList(fired), u.Z(int64(rs.Completed())))))
+		// owed: the frame whose buffer the current frame aliases (-1: none, or a private copy)
+		owed := int64(bufferOf(rs.C03CurrentFrame()))
+		if owed >= 0 && frames[owed].fired > 0 {
+			monfail("alias", fmt.Sprintf("the current frame lives in the buffer of frame %d, which was already put back", owed))
+		}
+		items = append(items, u.Pair(op, u.App("ROut", u.Z(err), u.Z(n), u.Z(hash), u.Z(code), u.B(remote), u.ZList(fired), u.Z(int64(rs.Completed())), u.Z(owed))))
 	}
 	checkData := func(what string, d []byte) {
 		for i := range d {
